@@ -621,6 +621,21 @@ func runC07Impl2Doc(c *core.Ctx) {
 		tm.Merge(A.mdl)
 		mon.CheckSketchBins(c, "plain_from_exact", d, tm)
 	}
+	// the buffer of that first encoding (handed over nil) is the caller's: it is overwritten, and the sketch
+	// encoded once more is still a documented stream with the same content
+	if !c.Failed() && r.Bool() {
+		for i := range e[:cap(e)] {
+			e[:cap(e)][i] = 0xEE
+		}
+		var e2 []byte
+		if c.Guard("Encode (after the first buffer was overwritten)", func() { A.s.I().Encode(&e2, omit) }) {
+			return
+		}
+		c.Count("oracle.encoded_again_after_buffer_overwritten", 1)
+		if _, ok := checkWireContent(c, e2, A, omit); !ok {
+			return
+		}
+	}
 	ct := wire.ContentOf(blocks)
 	if len(blocks) >= 3 && len(ct.Layouts) >= 2 {
 		c.NonTrivial()
